@@ -1340,7 +1340,7 @@ func call(n *node) {
 				values = append(values, genValueInterface(c))
 			case isInterfaceBin(arg):
 				values = append(values, genInterfaceWrapper(c, arg.rtype))
-			case isFuncSrc(arg):
+			case isFuncSrc(arg), arg.cat == valueT && arg.rtype.Kind() == reflect.Func:
 				values = append(values, genFuncValue(c))
 			default:
 				values = append(values, genValue(c))
